@@ -41,6 +41,27 @@ def overlay() -> None:
     for p in reversed(paths):
         if p not in sys.path:
             sys.path.insert(0, p)
+    # a sub-package that is a namespace portion in the working tree (no __init__.py) but a regular package in
+    # site-packages would be shadowed by the installed copy whatever sys.path says: pre-bind it to the working tree
+    import types
+
+    subs: dict[str, list[str]] = {}
+    for p in paths:
+        for d in sorted(glob.glob(os.path.join(p, "quri_parts", "*"))):
+            if os.path.isdir(d) and not os.path.basename(d).startswith("__"):
+                subs.setdefault(os.path.basename(d), []).append(d)
+    for sub, dirs in subs.items():
+        name = "quri_parts." + sub
+        if name in sys.modules or any(os.path.exists(os.path.join(d, "__init__.py")) for d in dirs):
+            continue
+        mod = types.ModuleType(name)
+        mod.__path__ = list(dirs)  # type: ignore[attr-defined]
+        mod.__file__ = None
+        mod.__package__ = name
+        sys.modules[name] = mod
+        import quri_parts  # namespace package: importing it loads nothing
+
+        setattr(quri_parts, sub, mod)
     # make sure nothing was imported before the overlay
     stale = [
         m
